@@ -33,6 +33,56 @@ def wellFormed (l : List Nat) : Bool :=
 termination_by l.length
 decreasing_by simp only [List.length_drop, List.length_cons]; omega
 
+/-- one complete sequence: a lead byte announcing `n` bytes followed by exactly `n - 1` continuation bytes -/
+def oneSeq (s : List Nat) : Bool :=
+  match s with
+  | [] => false
+  | b :: rest => seqLen b != 0 && rest.length + 1 == seqLen b && rest.all isCont
+
+/-- the number denoted by the payload bits of a sequence (RFC 3629 section 3, read backwards) -/
+def seqValue (s : List Nat) : Nat :=
+  match s with
+  | [b0] => b0
+  | [b0, b1] => (b0 - 0xC0) * 64 + (b1 - 0x80)
+  | [b0, b1, b2] => (b0 - 0xE0) * 4096 + (b1 - 0x80) * 64 + (b2 - 0x80)
+  | [b0, b1, b2, b3] => (b0 - 0xF0) * 262144 + (b1 - 0x80) * 4096 + (b2 - 0x80) * 64 + (b3 - 0x80)
+  | _ => 0
+
+/-- shortest form (not over-long) and at most U+10FFFF: what RFC 3629 demands beyond the syntax, apart from the
+    exclusion of the surrogates -/
+def shortest (s : List Nat) : Bool :=
+  match s.length with
+  | 1 => true
+  | 2 => 0x80 ≤ seqValue s
+  | 3 => 0x800 ≤ seqValue s
+  | 4 => 0x10000 ≤ seqValue s && seqValue s < 0x110000
+  | _ => false
+
+def isSurrogate (v : Nat) : Bool := 0xD800 ≤ v && v ≤ 0xDFFF
+
+/-- RFC 3629 section 4, the ABNF of one character (`UTF8-1 / UTF8-2 / UTF8-3 / UTF8-4`) byte range by byte range -/
+def abnfSeq (s : List Nat) : Bool :=
+  match s with
+  | [b0] => b0 ≤ 0x7F
+  | [b0, b1] => 0xC2 ≤ b0 && b0 ≤ 0xDF && isCont b1
+  | [b0, b1, b2] =>
+    ((b0 == 0xE0 && 0xA0 ≤ b1 && b1 ≤ 0xBF) || (0xE1 ≤ b0 && b0 ≤ 0xEC && isCont b1) ||
+      (b0 == 0xED && 0x80 ≤ b1 && b1 ≤ 0x9F) || (0xEE ≤ b0 && b0 ≤ 0xEF && isCont b1)) && isCont b2
+  | [b0, b1, b2, b3] =>
+    ((b0 == 0xF0 && 0x90 ≤ b1 && b1 ≤ 0xBF) || (0xF1 ≤ b0 && b0 ≤ 0xF3 && isCont b1) ||
+      (b0 == 0xF4 && 0x80 ≤ b1 && b1 ≤ 0x8F)) && isCont b2 && isCont b3
+  | _ => false
+
+/-- RFC 3629 well-formedness of a byte string: a concatenation of `abnfSeq` characters -/
+def rfc3629 (l : List Nat) : Bool :=
+  match l with
+  | [] => true
+  | b :: rest =>
+    seqLen b != 0 && decide (seqLen b ≤ rest.length + 1) && abnfSeq (b :: rest.take (seqLen b - 1)) &&
+      rfc3629 (rest.drop (seqLen b - 1))
+termination_by l.length
+decreasing_by simp only [List.length_drop, List.length_cons]; omega
+
 /-- ASCII code of the upper-case hexadecimal digit `n < 16` -/
 def upperHexDigit (n : Nat) : Nat := if n < 10 then 48 + n else 55 + n
 
@@ -40,6 +90,22 @@ def upperHexDigit (n : Nat) : Nat := if n < 10 then 48 + n else 55 + n
 def upperHex : List Nat → List Nat
   | [] => []
   | b :: rest => upperHexDigit (b / 16) :: upperHexDigit (b % 16) :: upperHex rest
+
+/-- value of a hexadecimal digit (either case), `none` for any other byte -/
+def hexDigitVal? (c : Nat) : Option Nat :=
+  if 48 ≤ c ∧ c ≤ 57 then some (c - 48)
+  else if 65 ≤ c ∧ c ≤ 70 then some (c - 55)
+  else if 97 ≤ c ∧ c ≤ 102 then some (c - 87)
+  else none
+
+/-- the bytes a hexadecimal text denotes (RFC 4648 section 8 read backwards): `none` for an odd length or a non-digit -/
+def unhex : List Nat → Option (List Nat)
+  | [] => some []
+  | [_] => none
+  | h :: l :: rest =>
+    match hexDigitVal? h, hexDigitVal? l, unhex rest with
+    | some a, some b, some r => some ((a * 16 + b) :: r)
+    | _, _, _ => none
 
 /-- RFC 4648 table 1: the character of the 6-bit value `i` -/
 def b64Char (i : Nat) : Nat :=
